@@ -53,8 +53,16 @@ func genActs(rng *rand.Rand, n, nkeys int, sleeps []int) []Act {
 		switch r := rng.Intn(10); {
 		case r < 6:
 			acts = append(acts, Act{Op: "apply", NS: ns, Name: name, Labels: randLabels(rng)})
-		case r < 8:
+		case r < 7:
 			acts = append(acts, Act{Op: "delete", NS: ns, Name: name})
+		case r < 8:
+			// delete and re-create back to back: a stale Delete frame applied
+			// after a list that already shows the new incarnation is destructive
+			acts = append(acts, Act{Op: "delete", NS: ns, Name: name}, Act{Op: "apply", NS: ns, Name: name, Labels: randLabels(rng)})
+			if rng.Intn(2) == 0 {
+				// ... and a relist is due while those frames are still in flight
+				acts = append(acts, Act{Op: "sleep", Ms: sleeps[len(sleeps)-2]})
+			}
 		default:
 			acts = append(acts, Act{Op: "sleep", Ms: sleeps[rng.Intn(len(sleeps))]})
 		}
@@ -75,7 +83,48 @@ func genInit(rng *rand.Rand, nkeys int) []world.Spec {
 	return init
 }
 
+// genC03Stale: a healthy watch, short refresh period and bursts of
+// delete + re-create right before a relist, with one stage of the watch
+// pipeline starved: frames of the old watch epoch are in flight when a list is
+// consumed.  They must be discarded with the epoch (a stale Delete applied
+// after the list that already shows the new incarnation loses the object until
+// the next relist).
+func genC03Stale(g GenCtx) interface{} {
+	rng := g.Rng
+	sc := &Ctrl{Prop: g.Prop, Bufsiz: 100}
+	sc.PeriodMs = pickInt(rng, 50, 200)
+	p := sc.PeriodMs
+	sc.ListLatMs = [2]int{pickInt(rng, 0, 0, p/4), pickInt(rng, 0, p/4, p/2)}
+	nkeys := 1 + rng.Intn(3)
+	sc.Init = genInit(rng, nkeys)
+	for i := 3 + rng.Intn(12); i > 0; i-- {
+		ns, name := randKey(rng, nkeys)
+		sc.Acts = append(sc.Acts, Act{Op: "delete", NS: ns, Name: name}, Act{Op: "apply", NS: ns, Name: name, Labels: randLabels(rng)})
+		if rng.Intn(3) == 0 {
+			ns2, name2 := randKey(rng, nkeys)
+			sc.Acts = append(sc.Acts, Act{Op: "apply", NS: ns2, Name: name2, Labels: randLabels(rng)})
+		}
+		sc.Acts = append(sc.Acts, Act{Op: "sleep", Ms: pickInt(rng, p/3, p/2, p, p)})
+		if rng.Intn(2) == 0 {
+			sc.Acts = append(sc.Acts, Act{Op: "check"})
+		}
+	}
+	sc.Sim = SimCfg{PermuteMaps: true, MaxSteps: 120000, EstSteps: 3000, NewTimers: rng.Intn(4) == 0}
+	sc.Sim.Strategy = detsim.Strategy{Kind: "starve", StarveName: pick(rng, "c.pump", "newWatchSession>s.run", "newWatcher>w.run", "Create>c.run"), StarveK: pickInt(rng, 5, 10, 30)}
+	if rng.Intn(3) == 0 {
+		sc.Sim.Strategy = detsim.Strategy{Kind: "pct", PCTDepth: 1 + rng.Intn(3)}
+	}
+	// work takes no simulated time, so frames are only still in flight when a
+	// list returns if the clock moves while they are pending: the stall move
+	sc.Sim.Strategy.StallPermille = pickInt(rng, 10, 30, 60)
+	sc.Sim.Strategy.StallMaxMs = p
+	return sc
+}
+
 func genC03(g GenCtx) interface{} {
+	if g.Idx%4 == 3 {
+		return genC03Stale(g)
+	}
 	rng := g.Rng
 	sc := &Ctrl{Prop: g.Prop}
 	sc.Bufsiz = pickInt(rng, 2, 3, 5, 10, 100)
@@ -109,7 +158,7 @@ func genC03(g GenCtx) interface{} {
 	}
 	sc.Acts = genActs(rng, rng.Intn(41), nkeys, []int{0, 1, 10, p / 3, p, 2 * p})
 	sc.LogYield = rng.Intn(4) == 0
-	sc.Sim = SimCfg{Strategy: randStrategy(rng, libGoroutines), NewTimers: rng.Intn(4) == 0, PermuteMaps: true, MaxSteps: 400000, EstSteps: 3000}
+	sc.Sim = SimCfg{Strategy: randStrategy(rng, libGoroutines), NewTimers: rng.Intn(4) == 0, PermuteMaps: true, MaxSteps: 120000, EstSteps: 3000}
 	sc.Sim.Strategy.StallMaxMs = 2 * p
 	return sc
 }
@@ -156,7 +205,7 @@ func genC04(g GenCtx) interface{} {
 	}
 	sc.LogYield = rng.Intn(4) == 0
 	sc.Sim = SimCfg{Strategy: randStrategy(rng, []string{"Create>c.run", "newWatcher>w.run", "newWatchSession>s.run", "c.pump", "newSubscription>s.run"}),
-		NewTimers: rng.Intn(4) == 0, PermuteMaps: true, MaxSteps: 400000, EstSteps: 3000}
+		NewTimers: rng.Intn(4) == 0, PermuteMaps: true, MaxSteps: 120000, EstSteps: 3000}
 	sc.Sim.Strategy.StallPermille = pickInt(rng, 0, 0, 5)
 	sc.Sim.Strategy.StallMaxMs = 1500
 	return sc
@@ -243,6 +292,10 @@ func runCtrl(sci interface{}) {
 		}
 	}
 
+	if healthy {
+		// once more at the end of the script, before any further relist can repair things
+		checkMid()
+	}
 	// quiescence: the server stops changing, injected faults stop
 	srv.F.Stop()
 	detsim.FairMode()
